@@ -27,7 +27,7 @@ func histKinds(hist []Op) string {
 		kinds[o.K] = true
 	}
 	var ks []string
-	for _, k := range []string{"append", "gapappend", "delete", "restart", "readall"} {
+	for _, k := range []string{"append", "gapappend", "burstrestart", "delete", "restart", "readall"} {
 		if kinds[k] {
 			ks = append(ks, k)
 		}
@@ -46,7 +46,7 @@ func c06Restart(t *testing.T, run *vk.Run, cfg Cfg, hist []Op) vk.Step[Op] {
 	runHist(t, run, "C06", cfg, hist, nil, func(w *World) {
 		step.Key = w.StateKey()
 		head, tail := w.headTail()
-		step.Next = enabledOps(cfg, head, tail, alphaOpts{MaxSlice: 3, Deletes: true, Restart: true})
+		step.Next = enabledOps(cfg, head, tail, alphaOpts{MaxSlice: 3, Deletes: true, Restart: true, Burst: true})
 		before = w.Observe()
 		okA = true
 	})
